@@ -38,6 +38,7 @@ func c03GenOpts(rng *vlib.Rng) idl.GenOpts {
 	o.GoEscapes = false
 	o.NameStress = 2
 	o.UnionDefault = true
+	o.TypedefEnumSel = true
 	return o
 }
 
